@@ -109,6 +109,8 @@ def wcs_specs(tier, seed):
                             ws = W.wspec(proj, rot, sc, False, fr, cv)
                             if enc != 'cdelt_pc':
                                 ws['enc'] = enc
+                            elif (ip + ir + isc + ifr + icv) % 3 == 0:
+                                ws['latfirst'] = True      # latitude on the first world axis (CTYPE1 = DEC-- / GLAT-)
                             out.append(ws)
     return out
 
@@ -210,6 +212,21 @@ def check_config(res, spec, off, ws):
     scale = ws['scale']
     px, py = W.REFPIX[0] + off[0], W.REFPIX[1] + off[1]
     c = W.to_world(w, px, py)
+    # the region's own celestial frame: the WCS's (most states) or another one (every fifth, by hash): sizes and the stated angle
+    # refer to the region's frame (its local north), whatever frame the WCS uses
+    hsel = _zlib.crc32(repr(('frame', sorted(spec.items()), list(off), sorted(ws.items(), key=str))).encode())
+    if hsel % 5 == 1:
+        from astropy.coordinates import FK5, Galactic, ICRS
+        from astropy.time import Time
+        others = [(n, f) for n, f in (('galactic', Galactic()), ('icrs', ICRS()), ('fk5_j1975', FK5(equinox=Time('J1975'))))
+                  if n != ws['frame']]
+        oname, oframe = others[(hsel // 5) % len(others)]
+        with warnings.catch_warnings():
+            warnings.simplefilter('ignore')
+            c = c.transform_to(oframe)
+        res.axis('region_frame', f"{oname} on {ws['frame']}")
+    else:
+        res.axis('region_frame', 'as the WCS')
     clon, clat = W.lonlat(c)
     for name, val in (('cls', cls), ('proj', ws['proj']), ('rot', ws['rot']), ('scale', scale), ('frame', ws['frame']),
                       ('crval', tuple(ws['crval'])), ('offset', tuple(off)), ('angle', spec.get('angle', 'n/a'))):
